@@ -14,7 +14,7 @@ open Conv
      Cur = /repo as it is;
      Fix = /repo with patches/0003 .. 0015 applied (writer: 0014 reserved words quoted, 0015 set-info; reader, C14: the others).
    C14's driver uses this constant too: flip it here, once, when the patches are committed. *)
-let code_variant : variant = Fix
+let code_variant : variant = Fix2
 let ser = ser code_variant
 let ser_cmd = ser_cmd code_variant
 let escape_id = escape_id code_variant
